@@ -34,6 +34,12 @@ type LOp struct {
 
 // BuildLabelProgram applies the op list to the real exported builder.
 func BuildLabelProgram(ops []LOp) (out []bpf.Instruction, err error, panicked any) {
+	out, err, panicked, _ = BuildLabelProgramAgain(ops)
+	return
+}
+
+// BuildLabelProgramAgain also returns a function that calls Assemble on the very same Program once more.
+func BuildLabelProgramAgain(ops []LOp) (out []bpf.Instruction, err error, panicked any, again func() ([]bpf.Instruction, error, any)) {
 	defer func() {
 		if e := recover(); e != nil {
 			panicked = e
@@ -74,6 +80,16 @@ func BuildLabelProgram(ops []LOp) (out []bpf.Instruction, err error, panicked an
 		}
 	}
 	out, err = p.Assemble()
+	out = append([]bpf.Instruction(nil), out...) // the caller's copy: a second Assemble may rewrite the builder's own slice
+	again = func() (o []bpf.Instruction, e error, pan any) {
+		defer func() {
+			if r := recover(); r != nil {
+				pan = r
+			}
+		}()
+		o, e = p.Assemble()
+		return
+	}
 	return
 }
 
